@@ -131,6 +131,55 @@ Theorem c01_exists_counts :
   exists_count now d args n = n + len (filter (fun k => eng_exists now d k) (bulks_of args)).
 Proof. exact exists_count_spec. Qed.
 
+(** SETRANGE with an empty value (e0df64a) changes nothing and answers the current length - 0 for a
+    missing key, which is not created, WRONGTYPE for another type - for every offset, also one
+    beyond the 512 MB limit; the answer is STRLEN's *)
+Theorem c01_setrange_empty_changes_nothing :
+  forall d k off, eng_setrange d k off [] = (cur_len d k, d).
+Proof. exact setrange_empty_noop. Qed.
+Theorem c01_setrange_empty_is_strlen :
+  forall d nm nm' k a off, parse_usize a = Some off ->
+  h_setrange d [FBulk nm; FBulk k; FBulk a; FBulk []] = h_strlen d [FBulk nm'; FBulk k].
+Proof. exact setrange_empty_is_strlen. Qed.
+
+(** SET: EX and PX exclude each other (0e6458f) - in either order, whatever the two counts and
+    whatever follows, the command is refused and nothing is stored *)
+Theorem c01_set_ex_px_exclusive :
+  forall now d nm k v a b tail,
+  h_set now d (FBulk nm :: FBulk k :: FBulk v :: FBulk (bs "EX") :: FBulk a :: FBulk (bs "PX") :: b :: tail) = (r_err, d) /\
+  h_set now d (FBulk nm :: FBulk k :: FBulk v :: FBulk (bs "PX") :: FBulk a :: FBulk (bs "EX") :: b :: tail) = (r_err, d).
+Proof. exact set_ex_px_refused. Qed.
+
+(** SETEX / PSETEX (0bd9e72): a count of 0 is refused and stores nothing; whatever they do store
+    has its deadline strictly in the future *)
+Theorem c01_setex_zero_refused :
+  forall m now d parts a, nth_arg parts 2 = Some a -> parse_u64 a = Some 0 ->
+  h_setex m now d parts = (r_err, d).
+Proof. exact setex_zero_refused. Qed.
+Theorem c01_setex_deadline_in_future :
+  forall m now d parts r d' k e, 0 < m ->
+  h_setex m now d parts = (r, d') -> r = r_ok -> nth_arg parts 1 = Some k ->
+  get_entry d' k = Some e -> exists t, e_exp e = Some t /\ now < t.
+Proof. exact setex_deadline_future. Qed.
+
+(** Integers of the INCR family (5887f54): the canonical decimal text only.  Every i64 has one and
+    it reads back as that number; nothing else is read as a number; so a stored string is
+    incremented only if it is exactly what [print_int] writes for some i64. *)
+Theorem c01_canonical_roundtrip :
+  forall z, in_i64 z = true -> parse_canonical (print_int z) = Some z.
+Proof. exact parse_canonical_print. Qed.
+Theorem c01_canonical_unique :
+  forall b z, parse_canonical b = Some z -> b = print_int z.
+Proof. exact parse_canonical_unique. Qed.
+Theorem c01_canonical_in_range :
+  forall b z, parse_canonical b = Some z -> in_i64 z = true.
+Proof. exact parse_canonical_range. Qed.
+Theorem c01_incr_only_canonical :
+  forall d k inc e b n d',
+  get_entry d k = Some e -> e_val e = VStr b -> eng_incr_by d k inc = (Some n, d') ->
+  exists cur, b = print_int cur /\ in_i64 cur = true /\ n = cur + inc.
+Proof. exact incr_only_canonical. Qed.
+
 (** ---- non-vacuity ---- *)
 Example c01_wf_reachable : wf_db empty_db.
 Proof. exact wf_empty. Qed.
@@ -147,6 +196,17 @@ Proof. vm_compute. reflexivity. Qed.
 (** empty-key: Redis accepts the empty string as a key; SET/GET/INCR/INCRBY refuse it *)
 Example c01_empty_key_refuted :
   fst (h_set 0 empty_db [FBulk (bs "SET"); FBulk []; FBulk (bs "v")]) = r_err.
+Proof. vm_compute. reflexivity. Qed.
+(** lenient-integer-arguments: every integer argument other than the value and the increment of the
+    INCR family is still read with Rust's [str::parse] (a leading '+', leading zeros), which
+    Redis refuses: EXPIRE k +5, GETRANGE k +0 01, SETEX k2 +5 v are accepted *)
+Example c01_lenient_integer_arguments_refuted :
+  fst (run_strings empty_db
+        [(0, [FBulk (bs "SET"); FBulk (bs "k"); FBulk (bs "v")]);
+         (0, [FBulk (bs "EXPIRE"); FBulk (bs "k"); FBulk (bs "+5")]);
+         (0, [FBulk (bs "GETRANGE"); FBulk (bs "k"); FBulk (bs "+0"); FBulk (bs "01")]);
+         (0, [FBulk (bs "SETEX"); FBulk (bs "k2"); FBulk (bs "+5"); FBulk (bs "v")])])
+  = [r_ok; r_int 1; r_bulk (bs "v"); r_ok].
 Proof. vm_compute. reflexivity. Qed.
 (** MSET is failure-atomic too since 974d7d6 (every pair is validated before the first is stored) *)
 Theorem c01_mset_refused_changes_nothing :
@@ -166,4 +226,36 @@ Proof. vm_compute. reflexivity. Qed.
 Example c01_set_ex0_refused :
   h_set 0 empty_db [FBulk (bs "SET"); FBulk (bs "a"); FBulk (bs "1"); FBulk (bs "EX"); FBulk (bs "0")] = (r_err, empty_db) /\
   h_set 0 empty_db [FBulk (bs "SET"); FBulk (bs "a"); FBulk (bs "1"); FBulk (bs "PX"); FBulk (bs "0")] = (r_err, empty_db).
+Proof. vm_compute. split; reflexivity. Qed.
+
+(** ---- repaired e0df64a, 0e6458f, 0bd9e72, 5887f54: regression examples ---- *)
+Definition c01_abc : db := snd (h_set 0 empty_db [FBulk (bs "SET"); FBulk (bs "e"); FBulk (bs "abc")]).
+Example c01_setrange_empty_value :
+  h_setrange c01_abc [FBulk (bs "SETRANGE"); FBulk (bs "e"); FBulk (bs "10"); FBulk []] = (r_int 3, c01_abc) /\
+  h_setrange c01_abc [FBulk (bs "SETRANGE"); FBulk (bs "e"); FBulk (bs "0"); FBulk []] = (r_int 3, c01_abc) /\
+  h_setrange c01_abc [FBulk (bs "SETRANGE"); FBulk (bs "e"); FBulk (bs "536870913"); FBulk []] = (r_int 3, c01_abc) /\
+  h_setrange c01_abc [FBulk (bs "SETRANGE"); FBulk (bs "nokey"); FBulk (bs "10"); FBulk []] = (r_int 0, c01_abc).
+Proof. vm_compute. repeat split; reflexivity. Qed.
+Example c01_set_ex_px_refused :
+  h_set 0 empty_db [FBulk (bs "SET"); FBulk (bs "f"); FBulk (bs "x"); FBulk (bs "EX"); FBulk (bs "10"); FBulk (bs "PX"); FBulk (bs "100")] = (r_err, empty_db) /\
+  h_set 0 empty_db [FBulk (bs "SET"); FBulk (bs "f"); FBulk (bs "x"); FBulk (bs "px"); FBulk (bs "100"); FBulk (bs "NX"); FBulk (bs "ex"); FBulk (bs "10")] = (r_err, empty_db) /\
+  fst (h_set 0 empty_db [FBulk (bs "SET"); FBulk (bs "f"); FBulk (bs "x"); FBulk (bs "EX"); FBulk (bs "10"); FBulk (bs "EX"); FBulk (bs "20")]) = r_ok.
+Proof. vm_compute. repeat split; reflexivity. Qed.
+Example c01_setex_0_refused :
+  h_setex 1000 0 empty_db [FBulk (bs "SETEX"); FBulk (bs "h"); FBulk (bs "0"); FBulk (bs "v")] = (r_err, empty_db) /\
+  h_setex 1 0 empty_db [FBulk (bs "PSETEX"); FBulk (bs "h"); FBulk (bs "0"); FBulk (bs "v")] = (r_err, empty_db) /\
+  h_setex 1000 0 empty_db [FBulk (bs "SETEX"); FBulk (bs "h"); FBulk (bs "-1"); FBulk (bs "v")] = (r_err, empty_db).
+Proof. vm_compute. repeat split; reflexivity. Qed.
+Example c01_noncanonical_integers_refused :
+  map parse_canonical [bs "+5"; bs "01"; bs "-0"; bs "00"; bs "+0"; bs " 5"; bs "5 "; bs "007"; bs "-01"; bs "-"; bs "";
+                       bs "9223372036854775808"; bs "0"; bs "-5"; bs "-9223372036854775808"]
+  = [None; None; None; None; None; None; None; None; None; None; None; None; Some 0; Some (-5); Some (-9223372036854775808)] /\
+  fst (run_strings empty_db
+        [(0, [FBulk (bs "SET"); FBulk (bs "a"); FBulk (bs "+5")]);
+         (0, [FBulk (bs "INCR"); FBulk (bs "a")]);
+         (0, [FBulk (bs "SET"); FBulk (bs "d"); FBulk (bs "1")]);
+         (0, [FBulk (bs "INCRBY"); FBulk (bs "d"); FBulk (bs "+5")]);
+         (0, [FBulk (bs "DECRBY"); FBulk (bs "d"); FBulk (bs "01")]);
+         (0, [FBulk (bs "INCRBY"); FBulk (bs "d"); FBulk (bs "5")])])
+  = [r_ok; r_err; r_ok; r_err; r_err; r_int 6].
 Proof. vm_compute. split; reflexivity. Qed.
